@@ -31,7 +31,7 @@ import (
 func c08Setup(t *testing.T) ([]kit.Case, *kit.Reporter, int, int) {
 	logx.Disable()
 	// C01 is not under test here: the breaker inside redis.Redis never rejects
-	mathx.SetVerifCoin(func(float64) (bool, bool) { return false, true })
+	mathx.SetVerifCoin(c08Coin)
 	cases, err := kit.LoadCases(kit.Env("VERIF_CASES", ""))
 	if err != nil {
 		t.Fatal(err)
@@ -42,6 +42,31 @@ func c08Setup(t *testing.T) ([]kit.Case, *kit.Reporter, int, int) {
 	}
 	return cases, rep, kit.EnvInt("VERIF_SHARD", 0), kit.EnvInt("VERIF_SHARDS", 1)
 }
+
+// c08Coin is the breaker's coin.  Mode 0 (all replay stages): never reject.  Mode 1 (storm phase of
+// the concurrent stage): accept one consultation per 3 ms and reject the others, so that right after
+// the monitor's ping has been let through the callers' script calls fail at once, without a network
+// round trip - the situation of a half-open breaker in production.
+var (
+	c08CoinMode   atomic.Int32
+	c08LastAccept atomic.Int64
+)
+
+func c08Coin(float64) (bool, bool) {
+	if c08CoinMode.Load() == 0 {
+		return false, true
+	}
+	now := time.Now().UnixNano()
+	last := c08LastAccept.Load()
+	if now-last > int64(3*time.Millisecond) && c08LastAccept.CompareAndSwap(last, now) {
+		c08CoinAccepts.Add(1)
+		return false, true
+	}
+	c08CoinRejects.Add(1)
+	return true, true
+}
+
+var c08CoinAccepts, c08CoinRejects atomic.Int64
 
 func c08CodeName(code int) string {
 	switch code {
@@ -261,6 +286,104 @@ func TestVerifC08Align(t *testing.T) {
 	}
 }
 
+// ---------------------------------------------------------------- concurrent recovery
+
+// TestVerifC08Concurrent: the mechanism model spec/TokenMonitorImpl.tla says that, whatever the
+// interleaving of failing callers and the monitor, the limiter is never left in fallback mode with
+// nobody to bring it back (NoDeadFallback / Return).  This stage looks for such a state on the
+// real limiter: rounds of {Down; K goroutines per limiter hammer Allow(); Up while their calls
+// are still failing; keep hammering; quiesce}, several limiters side by side, and after every round
+// each limiter must reach Redis again (an EVAL with its key seen by the server's pre-hook).
+// The bound is generous (pings come every 100 ms): a limiter that is stuck stays stuck for good.
+func TestVerifC08Concurrent(t *testing.T) {
+	cases, rep, _, _ := c08Setup(t)
+	defer rep.Close()
+	cfg := cases[0].Steps[0]
+	rounds, nlim, k := kit.Num(cfg["rounds"]), kit.Num(cfg["limiters"]), kit.Num(cfg["k"])
+	storm := time.Duration(kit.Num(cfg["storm_ms"])) * time.Millisecond
+	s, err := miniredis.Run()
+	if err != nil {
+		t.Fatal(err)
+	}
+	defer s.Close()
+	cs := &c08Server{s: s}
+	cs.hook()
+	store := redis.New(s.Addr())
+	type lim struct {
+		name string
+		tl   *TokenLimiter
+	}
+	lims := make([]lim, nlim)
+	for i := range lims {
+		lims[i].name = fmt.Sprintf("cc%d", i)
+		lims[i].tl = NewTokenLimiter(1000, 1000, store, lims[i].name)
+	}
+	v := kit.Verdict{Case: 0, OK: true}
+	defer func() { c08CoinMode.Store(0) }()
+rounds:
+	for r := 0; r < rounds; r++ {
+		// every limiter uses Redis at the start of the round
+		for _, l := range lims {
+			l.tl.Allow()
+		}
+		var stop atomic.Bool
+		var wg sync.WaitGroup
+		// Down: connections are dropped; the callers' calls (issued while redisAlive = 1) fail after
+		// go-redis' retries, the first failure of each limiter starts its monitor
+		cs.kill.Store(true)
+		for _, l := range lims {
+			for j := 0; j < k; j++ {
+				wg.Add(1)
+				go func(tl *TokenLimiter) {
+					defer wg.Done()
+					for !stop.Load() {
+						tl.Allow()
+					}
+				}(l.tl)
+			}
+		}
+		time.Sleep(time.Duration(20+(r*37)%130) * time.Millisecond)
+		// Up, and the storm: pings get through, script calls are mostly refused by the breaker
+		c08CoinMode.Store(1)
+		cs.kill.Store(false)
+		time.Sleep(storm)
+		stop.Store(true)
+		wg.Wait()
+		c08CoinMode.Store(0)
+		v.Steps++
+		rep.Count("rounds", 1)
+		for _, l := range lims {
+			key := fmt.Sprintf(tokenFormat, l.name)
+			e0 := cs.evalsOf(key)
+			back := kit.WaitFor(8*time.Second, func() bool {
+				l.tl.Allow()
+				if cs.evalsOf(key) > e0 {
+					return true
+				}
+				time.Sleep(10 * time.Millisecond)
+				return false
+			})
+			if !back {
+				if !redis.New(s.Addr()).Ping() {
+					v = kit.Verdict{Case: 0, Infra: true, Msg: "server not reachable while waiting for the limiter"}
+					break rounds
+				}
+				v.OK, v.Step, v.Key = false, r, "C08:token:no-return:concurrent"
+				v.Msg = fmt.Sprintf("round %d (%d limiters x %d callers; Redis down, then up while calls were still failing): limiter %s "+
+					"did not send a request to Redis for 8 s although Redis answers (redisAlive=%d, monitorStarted=%v); "+
+					"specification TokenMonitorImpl!NoDeadFallback / Return",
+					r, nlim, k, l.name, atomic.LoadUint32(&l.tl.redisAlive), l.tl.monitorStarted)
+				break rounds
+			}
+			rep.Count("returns", 1)
+		}
+	}
+	rep.Count("storm.coin-accepts", int(c08CoinAccepts.Load()))
+	rep.Count("storm.coin-rejects", int(c08CoinRejects.Load()))
+	rep.Count("pings", int(cs.pings.Load()))
+	rep.Put(v)
+}
+
 // ---------------------------------------------------------------- token limiter
 
 type c08Server struct {
@@ -268,16 +391,34 @@ type c08Server struct {
 	evals    atomic.Int64
 	pings    atomic.Int64
 	mu       sync.Mutex
-	lastEval []string // arguments of the last EVAL that reached the server
+	lastEval []string         // arguments of the last EVAL that reached the server
+	byKey    map[string]int64 // EVALs per first key (= "{name}.tokens" for the token limiter)
+	kill     atomic.Bool      // outage without closing the listener: every command's connection is dropped
+}
+
+func (cs *c08Server) evalsOf(key string) int64 {
+	cs.mu.Lock()
+	defer cs.mu.Unlock()
+	return cs.byKey[key]
 }
 
 func (cs *c08Server) hook() {
-	cs.s.Server().SetPreHook(func(_ *server.Peer, cmd string, args ...string) bool {
+	cs.s.Server().SetPreHook(func(peer *server.Peer, cmd string, args ...string) bool {
+		if cs.kill.Load() {
+			peer.Close()
+			return true
+		}
 		switch strings.ToUpper(cmd) {
 		case "EVAL", "EVALSHA":
 			cs.evals.Add(1)
 			cs.mu.Lock()
 			cs.lastEval = append([]string(nil), args...)
+			if len(args) >= 3 {
+				if cs.byKey == nil {
+					cs.byKey = map[string]int64{}
+				}
+				cs.byKey[args[2]]++
+			}
 			cs.mu.Unlock()
 		case "PING":
 			cs.pings.Add(1)
